@@ -442,9 +442,15 @@ class Bus (objects.DBusObject):
         owner = queue[0]
 
         if caller is not owner:
+            if caller in queue:
+                # it was waiting for the name: it waits no longer
+                queue.remove(caller)
+                caller.busNames.pop(name, None)
+                return client.NAME_RELEASED
             return client.NAME_NOT_OWNER
 
         del queue[0]
+        caller.busNames.pop(name, None)
 
         if caller.isConnected:
             self.sendSignal(caller, 'NameLost', 's', name)
